@@ -338,7 +338,7 @@ def run(ctx):
         rest = [t for t in ex if T.depth(t) > 1]
         ex = small + ctx.rng.sample(rest, min(len(rest), 450))
     trees += ex
-    nrand = 150 if ctx.tier == 'quick' else 5000
+    nrand = 150 if ctx.tier == 'quick' else 3000
     for _ in range(nrand):
         trees.append(rand_tree(ctx.rng, ctx.rng.choice([2, 3, 3, 4, 4])))
     ctx.exhaustive = (ctx.tier == 'thorough')
@@ -394,7 +394,7 @@ def run(ctx):
         cases.append('(%s)' % e)
         meta.append(('registry', None, {'rows': len(rows)}))
     try:
-        bad = ctx.coq_filter(['TypeDesc'], 'chk_all', cases, prelude=PRELUDE, shard=450)
+        bad = ctx.coq_filter(['TypeDesc'], 'chk_all', cases, prelude=PRELUDE, shard=450, timeout=3000)
         for i in bad[:12]:
             kind, x, summary = meta[i]
             model = None
